@@ -208,6 +208,7 @@ def describe(tier):
     return {
         "alphabet": "fill histories: files of k granules (k=1..34), alternating sizes (k1,k2<=6), exact-multiple stream lengths, under " +
                     ("all 72" if tier == "thorough" else "10") + " fill orders, via DiskFile.add_file and via VirtualFile append on a host file; synthetic "
+                    "images; files of every kind (ML/BASIC/ASCII/DATA: different header and trailer sizes) whose stored stream is k granules +-0,1,2 bytes; synthetic "
                     "images (independent writer) with F free granules for every F in 0..68 at 4 placements and 0/1/2/69/70/71/72 live directory entries",
         "bound": "every history runs until the first refusal (<= 90 steps)",
         "oracle": "needed = stream//2304 + 1; success iff needed <= free granules and a free slot; on success exactly `needed` previously free "
